@@ -27,7 +27,7 @@ REPO = Path(os.environ.get("VERIF_REPO", "/repo"))
 DRIVER = LEAN / ".lake" / "build" / "bin" / "nmdriver"
 TRDRIVER = LEAN / ".lake" / "build" / "bin" / "trdriver"  # definitions regenerated from the Python source (py2lean)
 # request prefixes the translated-source driver answers (lean/TrDriver.lean)
-TR_OPS = ("a1 colname ", "a1 cell ", "a1 range ", "a1 parse ", "a1 coloff ", "items getitem ", "numfmt fracparts ", "numfmt twos ", "addr iterrows ", "addr itercols ",
+TR_OPS = ("a1 colname ", "a1 cell ", "a1 range ", "a1 parse ", "a1 coloff ", "a1 colidx ", "items getitem ", "numfmt fracparts ", "numfmt twos ", "addr iterrows ", "addr itercols ",
           "datefmt fmt ", "datefmt expand ", "dur units ")
 ALLOWED_AXIOMS = {"propext", "Classical.choice", "Quot.sound"}
 FORBIDDEN = re.compile(
